@@ -75,4 +75,34 @@ CHECKS.update({
                  "governance VAAs); crypto oracle abstract; harness + driver; differential run samples scenarios; badger read-your-writes."),
     },
 })
+CHECKS.update({
+    "C02": {
+        "families": ("processor",),
+        "level": "proof",
+        "technique": "Lean 4 theorems on the processor model (publish soundness/completeness, at-most-once, invalid-traffic no-op, governance never signed), tied by differential execution incl. all causally valid permutations of small event multisets",
+        "text": ("publish_sound (a publish step is the handling of an observation for a locally observed digest, with the own body, not yet "
+                 "submitted, >= quorum assembled signatures), publish_complete (an accepted observation that brings the snapshot set's count to "
+                 "quorum publishes in that very step, exactly once), submitted_never_republished + reobserve_keeps_submitted, "
+                 "invalid_observation_noop, governance_message_never_signed, before_first_set_dropped are proved for every state and input. "
+                 "Order-independence across permutations is shown by the tie, not yet as a Lean theorem: the harness replays every causally "
+                 "valid permutation of small multisets against fresh processors and the driver evaluates a history-based Spec (published iff "
+                 "observed and quorum of accepted distinct members) on the implementation's own traces."),
+        "note": ("Trusted: Lean kernel; crypto oracle abstract; harness + driver; the confluence statement over permutations is carried by "
+                 "exhaustive small permutation families + random interleavings (labelled as tests), the per-step theorems are unbounded."),
+    },
+    "C14": {
+        "families": ("processor",),
+        "level": "proof",
+        "technique": "Lean 4 case-analysis theorems on the model of one cleanup iteration (no early discard, retry when due / not before, two-tick expiry, decreasing retry budget), tied by differential execution with simulated elapsed time",
+        "text": ("For every entry state, time, store content and queue fill: a pending entry (signed, no quorum, VAA not stored, budget left) "
+                 "is never deleted; it is retried exactly when settled, >= 5 min old and >= 5 min since the last retry (re-broadcast + "
+                 "re-observation request for the emitter chain and tx), never earlier; entries never observed locally are gone at most two "
+                 "ticks after 5 min, submitted ones two ticks after 1 h; the retry budget strictly decreases on every due tick and a spent "
+                 "budget deletes. The real handleCleanup is replayed with time simulated by shifting recorded instants across every "
+                 "threshold, and the schedule Spec is evaluated on the implementation's own before/after summaries."),
+        "note": ("Trusted: Lean kernel; integer-nanosecond time (delta.Hours()/Minutes() float comparisons are exact at the thresholds); "
+                 "liveness is relative to ticks continuing; harness time shifting; Go map iteration order abstracted (outputs compared as "
+                 "multisets, request-queue slots checked as subset + count)."),
+    },
+})
 NOT_BUILT = {}
